@@ -92,6 +92,42 @@ def same_pair(a, b, x, y):
     return (a == x and b == y) or (a == y and b == x)
 
 
+def projective_worlds(tt, X1, Y1, Z1, X2, Y2, Z2, u1, u2, s1, s2):
+    """All combinations of facts about two Jacobian representations that a comparison-based test can observe:
+    each Z is 0, 1 or something else; the two points are the same / opposite (same x) / different; the raw coordinates
+    may or may not coincide -- subject to the algebra that ties them together.  Yields dict predicate-key -> bool plus
+    the semantic facts (zero1, zero2, relation)."""
+    import itertools
+    one = Lin()
+    K = {
+        'z1': ('is_zero', tt.lin_key(Z1)), 'z2': ('is_zero', tt.lin_key(Z2)),
+        'one1': tt.eq_key(Z1, one), 'one2': tt.eq_key(Z2, one),
+        'kx': tt.eq_key(u1, u2), 'ky': tt.eq_key(s1, s2),
+        'rx': tt.eq_key(X1, X2), 'ry': tt.eq_key(Y1, Y2), 'rz': tt.eq_key(Z1, Z2),
+    }
+    for zc1, zc2 in itertools.product(('zero', 'one', 'other'), repeat=2):
+        for rel in ('same', 'opp', 'diff'):
+            if (zc1 == 'zero' or zc2 == 'zero') and rel != 'same':
+                continue        # relation only matters for two finite points (enumerate garbage separately below)
+            finite = zc1 != 'zero' and zc2 != 'zero'
+            rz_opts = [True] if (zc1 == zc2 and zc1 in ('zero', 'one')) else ([False] if zc1 != zc2 and 'other' not in (zc1, zc2) else ([False] if zc1 != zc2 else [True, False]))
+            for rz in rz_opts:
+                if finite:
+                    kx_opts = [rel in ('same', 'opp')]
+                    ky_opts = [rel == 'same']
+                else:
+                    kx_opts, ky_opts = [True, False], [True, False]       # coordinates of an identity carry no meaning
+                for kx, ky in itertools.product(kx_opts, ky_opts):
+                    if finite and rz:
+                        rx_opts, ry_opts = [kx], [ky]                      # same Z: cross-multiplied equality is raw equality
+                    else:
+                        rx_opts, ry_opts = [True, False], [True, False]
+                    for rx, ry in itertools.product(rx_opts, ry_opts):
+                        env = {K['z1']: zc1 == 'zero', K['z2']: zc2 == 'zero', K['one1']: zc1 == 'one', K['one2']: zc2 == 'one',
+                               K['kx']: kx, K['ky']: ky, K['rx']: rx, K['ry']: ry, K['rz']: rz}
+                        yield env, (zc1 == 'zero', zc2 == 'zero', rel if finite else None)
+
+
 def rule_projective_ops(fx, rep):
     n = 0
     for g, proj, aff in GROUPS:
@@ -230,20 +266,29 @@ def rule_projective_ops(fx, rep):
             bad = []
             true_paths = 1
             import tt
-            kz1, kz2 = ('is_zero', tt.lin_key(Z1)), ('is_zero', tt.lin_key(Z2))
-            kx, ky = tt.eq_key(u1, u2), tt.eq_key(s1, s2)
-            known = [kz1, kz2, kx, ky]
+            worlds = list(projective_worlds(tt, X1, Y1, Z1, X2, Y2, Z2, u1, u2, s1, s2))
+            allowed = set(worlds[0][0].keys())
             for k_ in tt.predicates(res):
-                if k_ not in known:
-                    bad.append('tests %r; expected only Z1 = 0, Z2 = 0, X1*Z2^2 = X2*Z1^2 and Y1*Z2^3 = Y2*Z1^3' % (k_,))
-            if not bad:
-                for env, cons in tt.table(res, known):
-                    want = (env[kz1] and env[kz2]) if (env[kz1] or env[kz2]) else (env[kx] and env[ky])
-                    vals = [tt.value_under(ret, env) for _, ret, _o in cons]
-                    if len(cons) != 1 or vals[0] is None:
-                        bad.append('for (Z1=0, Z2=0, x-test, y-test) = %r: %d consistent paths, value %r' % (tuple(env[k_] for k_ in known), len(cons), vals))
-                    elif vals[0] != want:
-                        bad.append('returns %s when (Z1=0, Z2=0, x-test, y-test) = %r' % (vals[0], tuple(env[k_] for k_ in known)))
+                if k_ not in allowed:
+                    bad.append('tests %r; a representation-independent comparison needs X1*Z2^2 = X2*Z1^2 and Y1*Z2^3 = Y2*Z1^3 (identity / Z = 1 / identical-coordinate tests are also understood)' % (k_,))
+            n_w = 0
+            for env, (zero1, zero2, rel) in ([] if bad else worlds):
+                n_w += 1
+                want = (zero1 and zero2) if (zero1 or zero2) else (rel == 'same')
+                cons = []
+                for pth, ret, _o in res:
+                    okp = True
+                    for key_, t_, _l in tt.path_literals(pth):
+                        if key_ in env and env[key_] != t_:
+                            okp = False
+                            break
+                    if okp:
+                        cons.append(ret)
+                vals = [tt.value_under(r_, env) for r_ in cons]
+                if len(cons) != 1 or vals[0] is None:
+                    bad.append('%d consistent paths (values %r) when self is %s, other is %s, relation %s' % (len(cons), vals, 'O' if zero1 else 'finite', 'O' if zero2 else 'finite', rel))
+                elif vals[0] != want:
+                    bad.append('returns %s when self is %s, other is %s%s' % (vals[0], 'the identity' if zero1 else 'finite', 'the identity' if zero2 else 'finite', '' if rel is None else ' and they are %s' % {'same': 'the same point', 'opp': 'opposite points', 'diff': 'different points'}[rel]))
             rep.check(not bad and true_paths == 1, 'GUARD', '%s:eq:skeleton' % g,
                       'O==Q iff Q=O; P==O false; otherwise true iff X1 Z2^2 = X2 Z1^2 and Y1 Z2^3 = Y2 Z1^3',
                       '; '.join(sorted(set(bad))) or '%d accepting paths' % true_paths, fx.fn(p)['span'], construct=p)
